@@ -90,6 +90,7 @@ def main(argv):
     rep = mon.report()
     if reach is not None:
         rep["anchor_reach"] = {k: sorted(v) for k, v in reach.hit.items()}
+        rep["anchor_total"] = {k: sorted(v) for k, v in reach.total.items()}
         rep["anchors_unresolved"] = [n["anchor_unresolved"] for n in mon.notes if "anchor_unresolved" in n]
         reach.uninstall()
     rep["known_fired"] = known_fired
